@@ -1,0 +1,187 @@
+//go:build verif
+
+// Contracts for package treemap (comment-only; read by /verif/engine, never compiled into the package).
+
+package treemap
+
+//@ pred Inv(m) := m != nil && m.tree != nil && redblacktree.Inv(m.tree)
+//@ -- abstract view: that of the red-black tree (ascending entry sequence KeyAt/ValAt, finite map Has/Val)
+//@ pred N(m) := m.tree.size
+//@ pred KeyAt(m, i) := redblacktree.KeyAt(m.tree, i)
+//@ pred ValAt(m, i) := redblacktree.ValAt(m.tree, i)
+//@ pred Has(m, k) := redblacktree.Has(m.tree, k)
+//@ pred Val(m, k) := redblacktree.Val(m.tree, k)
+//@ pred Config(m) := m.tree == old(m.tree) && m.tree.Comparator == old(m.tree.Comparator)
+
+//@ func NewWith
+//@   requires comparator != nil && redblacktree.SWO(comparator, argof(comparator, 0))
+//@   modifies nothing
+//@   ensures [C01 C02 C15 C17] fresh(result) && Inv(result) && N(result) == 0 && result.tree.Comparator == comparator && fresh(result.tree)
+
+//@ func Map.Put
+//@   requires Inv(m)
+//@   modifies m.tree.Root, m.tree.size, m.tree.n, m.tree.nodes, m.tree.rank
+//@   modifies each x like m.tree.Root where x.tr == m.tree : x.Left, x.Right, x.Parent, x.a, x.b, x.color, x.Key, x.Value, x.pos
+//@   ghostvar pnew := 0
+//@   at after Put#1: pnew := res_pnew
+//@   ghostresult pnew int
+//@   ensures [C01 C02 C17] Inv(m) && Config(m)
+//@   ensures [C01 C02] at: 0 <= pnew && pnew < N(m) && m.tree.Comparator(key, KeyAt(m, pnew)) == 0 && ValAt(m, pnew) == value
+//@   ensures [C01 C02] replaced: old(Has(m, key)) ==> N(m) == old(N(m))
+//@     && (forall i :: 0 <= i && i < N(m) && i != pnew ==> KeyAt(m, i) == old(KeyAt(m, i)) && ValAt(m, i) == old(ValAt(m, i)))
+//@   ensures [C01 C02] inserted: !old(Has(m, key)) ==> N(m) == old(N(m)) + 1
+//@     && (forall i :: 0 <= i && i < pnew ==> KeyAt(m, i) == old(KeyAt(m, i)) && ValAt(m, i) == old(ValAt(m, i)))
+//@     && (forall i :: pnew < i && i < N(m) ==> KeyAt(m, i) == old(KeyAt(m, i-1)) && ValAt(m, i) == old(ValAt(m, i-1)))
+//@   ensures [C01] map: forall k like key :: (Has(m, k) <==> old(Has(m, k)) || m.tree.Comparator(k, key) == 0)
+//@     && (m.tree.Comparator(k, key) == 0 ==> Val(m, k) == value) && (m.tree.Comparator(k, key) != 0 && old(Has(m, k)) ==> Val(m, k) == old(Val(m, k)))
+
+//@ func Map.Get
+//@   requires Inv(m)
+//@   modifies nothing
+//@   ensures [C01 C17 C18] found == Has(m, key) && (found ==> value == Val(m, key)) && (!found ==> value == zero(value))
+
+//@ func Map.Remove
+//@   requires Inv(m)
+//@   modifies m.tree.Root, m.tree.size, m.tree.n, m.tree.nodes, m.tree.rank
+//@   modifies each x like m.tree.Root where x.tr == m.tree : x.Left, x.Right, x.Parent, x.a, x.b, x.color, x.Key, x.Value, x.pos, x.tr
+//@   ensures [C01 C02 C17] Inv(m) && Config(m)
+//@   ensures [C01 C02] absent: !old(Has(m, key)) ==> N(m) == old(N(m))
+//@     && (forall i :: 0 <= i && i < N(m) ==> KeyAt(m, i) == old(KeyAt(m, i)) && ValAt(m, i) == old(ValAt(m, i)))
+//@   ensures [C01 C02] present: old(Has(m, key)) ==> N(m) == old(N(m)) - 1
+//@     && (forall i :: 0 <= i && i < old(m.tree.rank[key]) ==> KeyAt(m, i) == old(KeyAt(m, i)) && ValAt(m, i) == old(ValAt(m, i)))
+//@     && (forall i :: old(m.tree.rank[key]) <= i && i < N(m) ==> KeyAt(m, i) == old(KeyAt(m, i+1)) && ValAt(m, i) == old(ValAt(m, i+1)))
+//@   ensures [C01] map: forall k like key :: (Has(m, k) <==> old(Has(m, k)) && m.tree.Comparator(k, key) != 0) && (Has(m, k) ==> Val(m, k) == old(Val(m, k)))
+
+//@ func Map.Empty
+//@   requires Inv(m)
+//@   modifies nothing
+//@   ensures [C15 C17 C18] result == (N(m) == 0)
+
+//@ func Map.Size
+//@   requires Inv(m)
+//@   modifies nothing
+//@   ensures [C01 C15 C17 C18] result == N(m) && result >= 0
+
+//@ func Map.Keys
+//@   requires Inv(m)
+//@   modifies nothing
+//@   ensures [C01 C02 C15 C16 C17 C18] fresh(arr(result)) && len(result) == N(m) && (forall j :: 0 <= j && j < N(m) ==> result[j] == KeyAt(m, j))
+//@   ensures [C02] ascending: forall i, j :: 0 <= i && i < j && j < N(m) ==> m.tree.Comparator(result[i], result[j]) < 0
+
+//@ func Map.Values
+//@   requires Inv(m)
+//@   modifies nothing
+//@   ensures [C01 C02 C15 C16 C17 C18] fresh(arr(result)) && len(result) == N(m) && (forall j :: 0 <= j && j < N(m) ==> result[j] == ValAt(m, j))
+
+//@ func Map.Clear
+//@   requires Inv(m)
+//@   modifies m.tree.Root, m.tree.size, m.tree.n
+//@   modifies each x like m.tree.Root where x.tr == m.tree : x.tr
+//@   ensures [C01 C15 C17] Inv(m) && Config(m) && N(m) == 0
+
+//@ func Map.Min
+//@   requires Inv(m)
+//@   modifies nothing
+//@   ensures [C02 C17 C18] (N(m) == 0 ==> !ok && key == zero(key) && value == zero(value)) && (N(m) > 0 ==> ok && key == KeyAt(m, 0) && value == ValAt(m, 0))
+
+//@ func Map.Max
+//@   requires Inv(m)
+//@   modifies nothing
+//@   ensures [C02 C17 C18] (N(m) == 0 ==> !ok && key == zero(key) && value == zero(value)) && (N(m) > 0 ==> ok && key == KeyAt(m, N(m) - 1) && value == ValAt(m, N(m) - 1))
+
+//@ -- Floor: greatest entry not above key; not-found exactly when every key is above it
+//@ func Map.Floor
+//@   requires Inv(m)
+//@   modifies nothing
+//@   ghostvar p := 0
+//@   at after Floor#1: p := callresult.pos
+//@   ghostresult p int
+//@   ensures [C02 C17 C18] ok ==> 0 <= p && p < N(m) && foundKey == KeyAt(m, p) && foundValue == ValAt(m, p) && m.tree.Comparator(foundKey, key) <= 0
+//@     && (forall i :: p < i && i < N(m) ==> m.tree.Comparator(KeyAt(m, i), key) > 0)
+//@   ensures [C02 C17 C18] !ok ==> foundKey == zero(foundKey) && foundValue == zero(foundValue) && (forall i :: 0 <= i && i < N(m) ==> m.tree.Comparator(KeyAt(m, i), key) > 0)
+
+//@ func Map.Ceiling
+//@   requires Inv(m)
+//@   modifies nothing
+//@   ghostvar p := 0
+//@   at after Ceiling#1: p := callresult.pos
+//@   ghostresult p int
+//@   ensures [C02 C17 C18] ok ==> 0 <= p && p < N(m) && foundKey == KeyAt(m, p) && foundValue == ValAt(m, p) && m.tree.Comparator(foundKey, key) >= 0
+//@     && (forall i :: 0 <= i && i < p ==> m.tree.Comparator(KeyAt(m, i), key) < 0)
+//@   ensures [C02 C17 C18] !ok ==> foundKey == zero(foundKey) && foundValue == zero(foundValue) && (forall i :: 0 <= i && i < N(m) ==> m.tree.Comparator(KeyAt(m, i), key) < 0)
+
+// ---- iterator: delegates to the red-black tree iterator (C08) ----
+
+//@ pred ItInv(it) := it != nil && redblacktree.ItInv(it.iterator)
+//@ pred Cur(it) := redblacktree.Cur(it.iterator)
+
+//@ func Map.Iterator
+//@   requires Inv(m)
+//@   modifies nothing
+//@   ensures [C08 C17 C18] fresh(result) && ItInv(result) && fresh(result.iterator) && result.iterator.tree == m.tree && Cur(result) == 0 - 1
+
+//@ func Iterator.Next
+//@   requires ItInv(iterator)
+//@   modifies iterator.iterator.node, iterator.iterator.position
+//@   ensures [C08 C17] ItInv(iterator) && Cur(iterator) == min(old(Cur(iterator)) + 1, iterator.iterator.tree.size)
+//@   ensures [C08] result == (0 <= Cur(iterator) && Cur(iterator) < iterator.iterator.tree.size)
+
+//@ func Iterator.Prev
+//@   requires ItInv(iterator)
+//@   modifies iterator.iterator.node, iterator.iterator.position
+//@   ensures [C08 C17] ItInv(iterator) && Cur(iterator) == max(old(Cur(iterator)) - 1, 0 - 1)
+//@   ensures [C08] result == (0 <= Cur(iterator) && Cur(iterator) < iterator.iterator.tree.size)
+
+//@ func Iterator.Key
+//@   requires ItInv(iterator) && iterator.iterator.position == 1
+//@   modifies nothing
+//@   ensures [C08 C17 C18] result == redblacktree.KeyAt(iterator.iterator.tree, Cur(iterator))
+
+//@ func Iterator.Value
+//@   requires ItInv(iterator) && iterator.iterator.position == 1
+//@   modifies nothing
+//@   ensures [C08 C17 C18] result == redblacktree.ValAt(iterator.iterator.tree, Cur(iterator))
+
+//@ func Iterator.Begin
+//@   requires ItInv(iterator)
+//@   modifies iterator.iterator.node, iterator.iterator.position
+//@   ensures [C08 C17] ItInv(iterator) && Cur(iterator) == 0 - 1
+
+//@ func Iterator.End
+//@   requires ItInv(iterator)
+//@   modifies iterator.iterator.node, iterator.iterator.position
+//@   ensures [C08 C17] ItInv(iterator) && Cur(iterator) == iterator.iterator.tree.size
+
+//@ func Iterator.First
+//@   requires ItInv(iterator)
+//@   modifies iterator.iterator.node, iterator.iterator.position
+//@   ensures [C08 C17] ItInv(iterator) && Cur(iterator) == 0 && result == (iterator.iterator.tree.size > 0)
+
+//@ func Iterator.Last
+//@   requires ItInv(iterator)
+//@   modifies iterator.iterator.node, iterator.iterator.position
+//@   ensures [C08 C17] ItInv(iterator) && Cur(iterator) == iterator.iterator.tree.size - 1 && result == (iterator.iterator.tree.size > 0)
+
+//@ func Iterator.NextTo
+//@   requires ItInv(iterator) && f != nil
+//@   modifies iterator.iterator.node, iterator.iterator.position
+//@   ensures [C08 C17] ItInv(iterator)
+//@   ensures [C08] found: result ==> old(Cur(iterator)) < Cur(iterator) && Cur(iterator) < iterator.iterator.tree.size && f(redblacktree.KeyAt(iterator.iterator.tree, Cur(iterator)), redblacktree.ValAt(iterator.iterator.tree, Cur(iterator)))
+//@     && (forall j :: old(Cur(iterator)) < j && j < Cur(iterator) ==> !f(redblacktree.KeyAt(iterator.iterator.tree, j), redblacktree.ValAt(iterator.iterator.tree, j)))
+//@   ensures [C08] notfound: !result ==> Cur(iterator) == iterator.iterator.tree.size && (forall j :: old(Cur(iterator)) < j && j < iterator.iterator.tree.size ==> !f(redblacktree.KeyAt(iterator.iterator.tree, j), redblacktree.ValAt(iterator.iterator.tree, j)))
+//@   loop 1:
+//@     invariant ItInv(iterator) && old(Cur(iterator)) <= Cur(iterator)
+//@     invariant forall j :: old(Cur(iterator)) < j && j <= Cur(iterator) && j < iterator.iterator.tree.size ==> !f(redblacktree.KeyAt(iterator.iterator.tree, j), redblacktree.ValAt(iterator.iterator.tree, j))
+//@     decreases iterator.iterator.tree.size - Cur(iterator)
+
+//@ func Iterator.PrevTo
+//@   requires ItInv(iterator) && f != nil
+//@   modifies iterator.iterator.node, iterator.iterator.position
+//@   ensures [C08 C17] ItInv(iterator)
+//@   ensures [C08] found: result ==> 0 <= Cur(iterator) && Cur(iterator) < old(Cur(iterator)) && f(redblacktree.KeyAt(iterator.iterator.tree, Cur(iterator)), redblacktree.ValAt(iterator.iterator.tree, Cur(iterator)))
+//@     && (forall j :: Cur(iterator) < j && j < old(Cur(iterator)) ==> !f(redblacktree.KeyAt(iterator.iterator.tree, j), redblacktree.ValAt(iterator.iterator.tree, j)))
+//@   ensures [C08] notfound: !result ==> Cur(iterator) == 0 - 1 && (forall j :: 0 <= j && j < old(Cur(iterator)) ==> !f(redblacktree.KeyAt(iterator.iterator.tree, j), redblacktree.ValAt(iterator.iterator.tree, j)))
+//@   loop 1:
+//@     invariant ItInv(iterator) && Cur(iterator) <= old(Cur(iterator))
+//@     invariant forall j :: Cur(iterator) <= j && j < old(Cur(iterator)) && 0 <= j ==> !f(redblacktree.KeyAt(iterator.iterator.tree, j), redblacktree.ValAt(iterator.iterator.tree, j))
+//@     decreases Cur(iterator) + 1
